@@ -13,6 +13,8 @@ CONSTANTS
   ValuesPerOp = 2
   EditWhen = "always"
   Extras = 0
+  IdInGroup = FALSE
+  InGroup = FALSE
   Deviations = {}
 VIEW vw
 INVARIANT Mutual
@@ -29,6 +31,7 @@ PROPERTY CopyCopiesPartner
 PROPERTY EditIsLocal
 PROPERTY RefusedIsNoop
 PROPERTY ValidEditsAccepted
+PROPERTY GroupCopyOnce
 INVARIANT ExportState
 ACTION_CONSTRAINT ExportTrans
 CHECK_DEADLOCK FALSE
